@@ -14,6 +14,7 @@ import mirq
 from mirq import show, access_path, AnchorMissing, const_of, walk
 from rulekit import Table
 from rules import common as C
+from rules import vocab as V
 from rules import C07
 
 TABLE = Table('C08')
@@ -180,7 +181,7 @@ def r2(cx, rec):
         e = f.expr_call(bb)
         a, b = access_path(e[2][0]), access_path(e[2][1])
         rec.site(f, bb, 'Handshake::new(%s, %s)' % (a, b))
-        rec.need(a == 'self.info_hash' and b == 'self.own_id', 'own-handshake-args', f, bb,
+        rec.need(a == 'self.' + V.handler_info_hash(F) and b == 'self.' + V.handler_own_id(F), 'own-handshake-args', f, bb,
                  'own handshake is built from (%s, %s): must be (own torrent\'s info-hash, own peer id)' % (a, b))
     # handler constructor
     hnew = None
@@ -192,20 +193,30 @@ def r2(cx, rec):
     f, bi, e = hnew
     fields = dict(e[4])
     params = [v['n'] for v in f.raw['vars'] if 'arg' in v]
-    for slot in ('own_id', 'peer_id', 'info_hash', 'pieces_num'):
+    # each identity slot is filled from the constructor parameter of its own type (own id / expected id / info-hash / count)
+    slots = {'own_id': V.handler_own_id(F), 'peer_id': V.handler_expected_id(F), 'info_hash': V.handler_info_hash(F),
+             'pieces_num': V.handler_pieces_num(F)}
+    ptypes = {n: t for n, l, t in C.params_of(f)}
+    ftypes = {fl['name']: fl['ty'] for fl in F.adts['peer_handler::PeerHandler']['variants'][0]['fields']}
+    src_of = {}
+    for role, slot in slots.items():
         src = access_path(fields.get(slot, ('other', '')))
-        rec.need(src == slot and slot in params, 'handler-new/' + slot, f, bi, 'PeerHandler.%s is initialised from %s' % (slot, src))
-    rec.site(f, bi, 'PeerHandler{own_id<-own_id, peer_id<-peer_id, info_hash<-info_hash}')
+        src_of[role] = src
+        rec.need(src in params and list(src_of.values()).count(src) == 1, 'handler-new/' + role, f, bi,
+                 'PeerHandler.%s is initialised from %s (expected: a constructor parameter of its own)' % (slot, src))
+    rec.site(f, bi, 'PeerHandler{%s}' % ', '.join('%s<-%s' % (slots[r], src_of[r]) for r in slots))
     for g, bb in C.callers(F, f.path):
         ce = g.expr_call(bb)
         args = dict(zip(params, ce[2]))
-        own = access_path(args['own_id'])
-        ih = show(args['info_hash'])
-        pid = args['peer_id']
+        if not all(src_of[r] in args for r in ('own_id', 'info_hash', 'peer_id')):
+            continue
+        own = access_path(args[src_of['own_id']])
+        ih = show(args[src_of['info_hash']])
+        pid = args[src_of['peer_id']]
         rec.site(g, bb, 'PeerHandler::new(own_id=%s, peer_id=%s, info_hash=%s)' % (own, show(pid)[:50], ih[:60]))
-        rec.need(own == 'self.own_id', 'spawn/own-id', g, bb, 'own id slot receives %s' % own)
+        rec.need(own == 'self.' + V.session_own_id(F), 'spawn/own-id', g, bb, 'own id slot receives %s' % own)
         rec.need(re.search(r'Metainfo::info_hash\(self\.metainfo\)', ih) is not None, 'spawn/info-hash', g, bb, 'info-hash slot receives %s' % ih[:80])
-        okp = (pid[0] == 'agg' and pid[3] == 'None') or (pid[0] == 'agg' and pid[3] == 'Some' and 'candidates' in show(pid))
+        okp = (pid[0] == 'agg' and pid[3] == 'None') or (pid[0] == 'agg' and pid[3] == 'Some' and V.session_candidates(F) in show(pid))
         rec.need(okp, 'spawn/peer-id', g, bb, 'expected-id slot receives %s' % show(pid)[:80])
 
 
